@@ -291,11 +291,22 @@ pub struct C20 {
     configs: Vec<(Vec<usize>, u32, u32, usize, usize)>,
 }
 
-/// start states: the empty registry, and a non-initial one where store `ids[0]` already holds two records
+/// start states: the empty registry, a non-initial one where store `ids[0]` already holds two records, and one where
+/// it holds a crowd of fifteen at limit 1
 fn start(ids: &[usize], k: usize) -> Vec<Op> {
     match k {
         0 => vec![],
-        _ => vec![Op::Create(ids[0], 0), Op::Add(ids[0], 0), Op::Add(ids[0], 1)],
+        1 => vec![Op::Create(ids[0], 0), Op::Add(ids[0], 0), Op::Add(ids[0], 1)],
+        // a crowd: fifteen records of which twelve share a gram with "alpha", and limit 1 - the candidate cap of
+        // 10 x limit cuts inside the index, so index state left behind by one search can reach the next
+        _ => {
+            let mut v = vec![Op::Create(ids[0], 0)];
+            for r in [0usize, 3, 2, 0, 3, 2, 0, 3, 2, 0, 3, 2, 1, 1, 1] {
+                v.push(Op::Add(ids[0], r));
+            }
+            v.push(Op::Limit(ids[0], 1));
+            v
+        }
     }
 }
 
@@ -330,6 +341,11 @@ impl C20 {
                 }
             }
         }
+        // from the crowd every replay costs seventeen more calls: shallower
+        match tier {
+            Tier::Quick => push(vec![1, 2], 4, 3, 2),
+            Tier::Thorough => push(vec![1, 2], 5, 4, 2),
+        }
         C20 { tier, configs }
     }
 }
@@ -339,7 +355,7 @@ impl Prop for C20 {
         let mut summary: Vec<(Vec<usize>, u32, u32, usize)> = self.configs.iter().map(|c| (c.0.clone(), c.1, c.2, c.3)).collect();
         summary.dedup();
         vec![Dom::new("registry-bfs", self.configs.len() as u64, 1).budget(self.tier.pick(170, 3000)).note(format!(
-            "one case per (configuration, first operation); configurations (store ids, merged depth, unmerged depth, start state 0 = empty registry / 1 = store 1 preloaded with two records): {:?}; ops: create x2 languages, destroy, add_record x4 (one rating tie), set_limit x3 (0, 1, 10), highlight_with x3 (default, a longer ASCII pair, a multi-byte pair), run_search x4 (empty, prefix, whole word, finished word with a trailing space) per id, valid calls only; using_results read for every live id after every operation",
+            "one case per (configuration, first operation); configurations (store ids, merged depth, unmerged depth, start state 0 = empty registry / 1 = store 1 preloaded with two records / 2 = store 1 preloaded with a crowd of fifteen records at limit 1, where the candidate cap cuts): {:?}; ops: create x2 languages, destroy, add_record x4 (one rating tie), set_limit x3 (0, 1, 10), highlight_with x3 (default, a longer ASCII pair, a multi-byte pair), run_search x4 (empty, prefix, whole word, finished word with a trailing space) per id, valid calls only; using_results read for every live id after every operation",
             summary
         ))]
     }
